@@ -1,6 +1,6 @@
 (* C07 driver.
    X <c>                      hex_to_int on one char value
-   P <ops> <V|-> <file hex>   ops = comma list of t<int> | s<int> | d<hex of the string bytes> | e (zck_clear_error); V = validate_lead first *)
+   P <ops> <V|-> <file hex>   ops = comma list of t<int> | s<int> | d<hex of the string bytes> | e (zck_clear_error) | v (zck_validate_lead now) | F<hex> (file replaced); V = validate_lead first *)
 let h_stub (t : n) (m : n list) : n list =
   bytes_of_string (Stubs.hash (n_to_int t) (string_of_bytes m))
 let zchars_of_string s = List.map (fun c -> let v = Char.code c in z_of_bz (BZ.of_int (if v >= 128 then v - 256 else v)))
@@ -20,10 +20,20 @@ let () = iter_lines (fun line ->
       Printf.printf "%s | SPEC %s\n" (z_to_string (hex_to_int z))
         (match hexval z with Some v -> z_to_string v | None -> "-1")
   | ["P"; ops; v; hex] ->
-      let ops = if ops = "-" then [] else List.map parse_op (String.split_on_char ',' ops) in
-      let (st, rs) = set_opts ops in
+      (* ops are applied one by one with the extracted set_opt; two more steps live here: v = zck_validate_lead now
+         (read_lead under the current pins on the current file; error cleared, nothing kept), F<hex> = the file's
+         bytes are replaced *)
+      let f = ref (bytes_of_hex hex) in
+      let st = ref prep_init and rs = ref [] in
+      List.iter (fun o ->
+        if o <> "" then begin
+          if o.[0] = 'v' then
+            rs := !rs @ [ (n_to_int !st.pr_err) = 0 && (match read_lead (pins_of !st) !f with POk _ -> true | _ -> false) ]
+          else if o.[0] = 'F' then begin f := bytes_of_hex (String.sub o 1 (String.length o - 1)); rs := !rs @ [true] end
+          else begin let (st', r) = set_opt !st (parse_op o) in st := st'; rs := !rs @ [r] end
+        end) (if ops = "-" then [] else String.split_on_char ',' ops);
+      let st = !st and rs = !rs and f = !f in
       let p = pins_of st in
-      let f = bytes_of_hex hex in
       let bs = String.concat "" (List.map (fun b -> if b then "1" else "0") rs) in
       let errd = (n_to_int st.pr_err) > 0 in
       let lead_ok = (not errd) && (match read_lead p f with POk _ -> true | _ -> false) in
